@@ -420,4 +420,12 @@ impl Database {
             Err(e) => Err(Error::Internal(format!("type error: {e}"))),
         }
     }
+
+    /// Verification hook: the disk storage engine behind this database, if any.
+    pub fn verif_secondary(&self) -> Option<std::sync::Arc<crate::storage::SecondaryStorage>> {
+        match &self.storage {
+            StorageImpl::SecondaryStorage(s) => Some(s.clone()),
+            _ => None,
+        }
+    }
 }
